@@ -60,6 +60,13 @@ StepErrs(e, A, m2) ==
   ELSE IF MustRaise(o, A) THEN {"C14.bin.rejects_headless"}
   ELSE LET wf == WFClauses(e.post) IN
     {(IF o.name \in Structural THEN "C04." ELSE "C11.") \o c : c \in wf} \cup
+    \* an ill-formed result also breaks the property that describes this operation
+    (IF wf = {} THEN {}
+     ELSE IF o.name = "root_attach" THEN {"C12.wellformed"}
+     ELSE IF o.name \in {"punctuation_verylow", "punctuation_root", "punctuation_symetrify"} THEN {"C13.wellformed"}
+     ELSE IF o.name \in {"boyd_split", "raising"} THEN {"C05.wellformed"}
+     ELSE IF o.name \in {"binarize", "collapse_unary_chains", "uncollapse_unary_chains"} THEN {"C14.wellformed"}
+     ELSE IF o.name \in {"negra_mark_heads", "mark_heads_by_rules"} THEN {"C15.wellformed"} ELSE {}) \cup
     (IF o.name \in RetRootOps /\ ~WFretroot(e.post) /\ wf = {}
      THEN {IF o.name = "uncollapse_unary_chains" THEN "C14.uncol.ret_is_root"
            ELSE IF o.name \in Structural THEN "C04.ret_is_root" ELSE "C11.ret_is_root"} ELSE {}) \cup
